@@ -13,6 +13,7 @@ from .. import typesuite as TS
 
 PROP = "C10"
 PROP_V = "theories/props/C10.v"
+MODEL_AREAS = ('front', 'types')
 
 
 def spec_check_wf(env, anns, obs):
